@@ -271,7 +271,10 @@ def run(chk):
                     # fall back: the capture itself is the response's auth_data
                     if any(cv == resp_ad or (isinstance(cv, tuple) and has(cv, lambda z: z == resp_ad)) for cv in x[2]):
                         same = True
-    chk.ob("R2 authData twice", "R2|attestation-object-authData-same-value", same, site, "attestation object embeds to_vec of the same auth_data value: %s" % same)
+    # ... and it gets there as the same bytes: no in-place update, projection or alternative value on the way
+    from .common import altered_uses
+    alt = altered_uses(ao, [resp_ad, ("call", "passkey_types::ctap2::attestation_fmt::AuthenticatorData::to_vec", (resp_ad,), None)] if resp_ad is not None else [], extra_wrappers=("AuthenticatorData::to_vec",))
+    chk.ob("R2 authData twice", "R2|attestation-object-authData-same-value", same and not alt, site, "attestation object embeds to_vec of the same auth_data value: %s%s" % (same, (" ; but it is altered on the way: %s" % flow.term_str(alt[0])[:200]) if alt else ""))
     consts = set()
     from .c01 import body_consts
     # (the view's own blocks — private helpers are inlined in it — and every closure constructed in them)
@@ -284,6 +287,7 @@ def run(chk):
     cid = lambda x: is_call(x, "AttestedCredentialData::credential_id")
     i1, i2_ = find(idt, cid), find(raw, cid)
     ok3 = i1 is not None and i2_ is not None and flow.strip_sites(i1) == flow.strip_sites(i2_) and is_call(idt, "encoding::base64url") and has(i1, lambda x: x == resp_ad)
+    ok3 = ok3 and not altered_uses(idt, [i1]) and not altered_uses(raw, [i1])
     chk.ob("R3 ids", "R3|Client::register|id-rawId-same", ok3, where(reg, line=reg.blocks[bb2]["stmts"][i2]["line"]), "id = %s ; rawId = %s" % (flow.term_str(idt)[:140], flow.term_str(raw)[:140]))
     # R4 (client side)
     pkd = a["public_key"]
